@@ -125,6 +125,7 @@ def run(ctx: Ctx) -> None:
     vf = repo.func(MOD, "PackingSpace.validate")
     ev = make_evaluator(repo, vf, extra_call=_passthrough_calls)
     ev.int_transparent = True
+    ev.compose_rows = True
     gw = GuardWalk(ev)
     env = Env()
     env.vars["self"] = Poly.var("self")
@@ -389,6 +390,18 @@ def _tail_clauses(ctx: Ctx, vf: FuncInfo, gw: GuardWalk, R: Roles,
                 s.target.value, ast.Name) and isinstance(s.op, ast.Add) \
                 and isinstance(s.value, ast.Constant) and s.value.value == 1:
             counter_name = (s.target.value.id, s.target.slice)
+        if isinstance(s, ast.Assign) and len(s.targets) == 1 and isinstance(
+                s.targets[0], ast.Subscript) and isinstance(
+                s.targets[0].value, ast.Name) and isinstance(
+                s.value, ast.BinOp) and isinstance(s.value.op, ast.Add):
+            # c[k] = c[k] + 1  /  c[k] = 1 + c[k]
+            tgt = ast.dump(s.targets[0]).replace("Store()", "Load()")
+            l_, r_ = s.value.left, s.value.right
+            if (ast.dump(l_) == tgt and isinstance(r_, ast.Constant)
+                    and r_.value == 1) or (
+                    ast.dump(r_) == tgt and isinstance(l_, ast.Constant)
+                    and l_.value == 1):
+                counter_name = (s.targets[0].value.id, s.targets[0].slice)
         if isinstance(s, ast.Expr) and isinstance(s.value, ast.Call) and \
                 isinstance(s.value.func, ast.Attribute) and \
                 s.value.func.attr == "add" and isinstance(
@@ -633,12 +646,13 @@ def _from_str(ctx: Ctx) -> None:
                 isinstance(t, ast.Attribute) and t.attr == "n_bins"
                 for t in n.targets):
             nn = n
+            val_ = inline_locals(fs.node, n.value)
             has_max = any(
                 isinstance(c, ast.Call) and (
                     (isinstance(c.func, ast.Attribute)
                      and c.func.attr == "max")
                     or (isinstance(c.func, ast.Name) and c.func.id == "max"))
-                for c in ast.walk(n.value))
+                for c in ast.walk(val_))
             col = any(
                 isinstance(sb, ast.Subscript) and isinstance(
                     sb.slice, ast.Tuple) and len(sb.slice.elts) == 2
@@ -646,7 +660,7 @@ def _from_str(ctx: Ctx) -> None:
                 and sb.slice.elts[0].lower is None
                 and sb.slice.elts[0].upper is None
                 and repo.const(fs.module, sb.slice.elts[1]) == idx_bin
-                for sb in ast.walk(n.value))
+                for sb in ast.walk(val_))
             ok_max = has_max and col and idx_bin is not None
     ctx.ob("D4.2", fs, nn, ok_max,
            "n_bins := maximum of the bin column (validate then enforces "
